@@ -60,3 +60,22 @@ Definition wake_model : list ptok := [KCallWakeByRef; KCallDropWaker].
 
 Definition refcount_protocol_matches (dl dw cl wk : list ptok) : bool :=
   toks_eqb dl drop_list_model && toks_eqb dw drop_waker_model && toks_eqb cl clone_waker_model && toks_eqb wk wake_model.
+
+(** [Unpin] facts the model of C08 relies on (measured by the harness with autoref
+    specialisation, generated/PinsInst.v): the four buffered adapters keep their upstream
+    stream inline, so over a [!Unpin] upstream the adapter must itself be [!Unpin] (otherwise
+    safe code may move it, and the upstream with it, between polls); the collections keep
+    their children in heap slots and are [Unpin] whatever the children are (moving the
+    collection moves no child — the model's [OMove] is the identity).
+    Order: buffered_unordered, buffered_ordered, try_buffered_unordered, try_buffered_ordered,
+    FuturesUnorderedBounded, FuturesUnordered, FuturesOrderedBounded, FuturesOrdered, JoinAll,
+    TryJoinAll. *)
+Definition pins_expected : list bool :=
+  [false; false; false; false; true; true; true; true; true; true].
+
+Fixpoint bools_eqb (a b : list bool) : bool :=
+  match a, b with
+  | [], [] => true
+  | x :: a', y :: b' => Bool.eqb x y && bools_eqb a' b'
+  | _, _ => false
+  end.
